@@ -118,32 +118,46 @@ def cases(draw):
         else:
             zs.append(draw(st.sampled_from([-1.0, 1.0])) * 10 ** draw(st.floats(1.5, 4.0)))
     container = draw(st.sampled_from(["array", "list", "column"]))
+    # whole-number data / uncertainties may be held in integer arrays or lists of Python ints
     return {"seed": 0, "cls": cls, "model": kind, "x": x, "theta": theta, "log10s": logs, "z": zs,
-            "container": container, "with_jac": draw(st.booleans())}
+            "container": container, "with_jac": draw(st.booleans()),
+            "s_dtype": draw(st.sampled_from(["float", "float", "float", "int64", "int32", "pyint"])),
+            "y_dtype": draw(st.sampled_from(["float", "float", "float", "int64", "pyint"]))}
 
 
 def build(case):
     model = Model(case["model"], case["x"], len(case["theta"]))
     th = np.array(case["theta"], dtype=float)
     s = 10.0 ** np.array(case["log10s"])
+    if case.get("s_dtype", "float") != "float":
+        s = np.clip(np.round(s), 1.0, 1e9)
     F = model(th)
     y = F + np.array(case["z"]) * s
+    if case.get("y_dtype", "float") != "float" and np.all(np.abs(y) < 2**52):
+        y = np.round(y)
     return model, th, y, s, F
 
 
-def wrap(arr, container):
-    if container == "list":
-        return [float(v) for v in arr]
+def wrap(arr, container, dtype="float"):
+    a = np.array(arr, dtype=float)
+    if dtype in ("int64", "int32") and np.all(np.abs(a) < 2**31 - 1) and np.all(a == np.round(a)):
+        a = a.astype(dtype)
+    if container == "list" or dtype == "pyint":
+        if dtype == "pyint" and np.all(a == np.round(a)) and np.all(np.abs(a) < 2**52):
+            out = [int(v) for v in a]
+        else:
+            out = [float(v) for v in a]
+        return [[v] for v in out] if container == "column" else out
     if container == "column":
-        return np.array(arr).reshape(-1, 1)
-    return np.array(arr)
+        return a.reshape(-1, 1)
+    return a
 
 
 def body_value(case, ctx):
     model, th, y, s, F = build(case)
     cls = case["cls"]
     n = y.size
-    like = CLASSES[cls](wrap(y, case["container"]), wrap(s, case["container"]), model,
+    like = CLASSES[cls](wrap(y, case["container"], case.get("y_dtype", "float")), wrap(s, case["container"], case.get("s_dtype", "float")), model,
                         forward_model_jacobian=model.jac if case["with_jac"] else None)
     with np.errstate(all="ignore"):
         val = like(th)
@@ -173,6 +187,8 @@ def body_value(case, ctx):
     ctx.event(f"cls={cls}")
     ctx.event("zmax>30" if zmax > 30 else "zmax<=30")
     ctx.event("hetero" if spread else "homog")
+    ctx.event("sigma-dtype=" + case.get("s_dtype", "float"))
+    ctx.event("y-dtype=" + case.get("y_dtype", "float"))
     ctx.event("n=1" if n == 1 else ("n<=12" if n <= 12 else ("n<=40" if n <= 40 else "n>40")))
     if n * abs(np.mean(case["log10s"])) > 308:
         ctx.event("product-of-scales-outside-float-range")
@@ -186,7 +202,7 @@ def body_gradient(case, ctx):
         y, s, F = y[:12], s[:12], F[:12]
         model = Model(case["model"], case["x"][:12], len(case["theta"]))
         n = 12
-    like = CLASSES[cls](y, s, model, forward_model_jacobian=model.jac)
+    like = CLASSES[cls](wrap(y, "array", case.get("y_dtype", "float")), wrap(s, "array", case.get("s_dtype", "float")), model, forward_model_jacobian=model.jac)
     with np.errstate(all="ignore"):
         g = np.asarray(like.gradient(th), dtype=float)
         cg = np.asarray(like.cost_gradient(th), dtype=float)
